@@ -62,8 +62,19 @@ static void dump()
 	}
 }
 
+struct Item
+{
+	long _k; char _pad[12];
+	Item(long k=0) : _k(k) { std::memset(_pad, 0x33, sizeof(_pad)); }
+	struct Compare { bool operator()(const Item& a, const Item& b) const { return a._k < b._k; } };
+};
+typedef presorted_set<long, Item, Item::Compare> GSet;
+
 int main(int argc, char **argv)
 {
+	GSet *gs(new GSet(size_t(0), size_t(4)));
+	Presence *ps(new Presence(size_t(0), size_t(4)));
+	bool use_presence(false);
 	if (argc > 1 && std::string(argv[1]) == "dump") { dump(); return 0; }
 	const F8MetaCntx& c(UTEST::ctx());
 	std::string line;
@@ -71,7 +82,49 @@ int main(int argc, char **argv)
 	{
 		std::vector<std::string> w(split(line));
 		std::ostringstream os;
-		if (w.size() == 3 && w[0] == "idx")
+		if (w.size() == 3 && w[0] == "new")
+		{
+			delete gs; delete ps;
+			use_presence = w[1] == "p";
+			const size_t res(std::stoul(w[2]));
+			gs = new GSet(size_t(0), res); ps = new Presence(size_t(0), res);
+			os << "ok";
+		}
+		else if (w.size() == 2 && w[0] == "ins")
+		{
+			const long k(std::stol(w[1]));
+			if (use_presence) { const FieldTrait ft(static_cast<unsigned short>(k), FieldTrait::ft_int, 1); const bool r(ps->insert(&ft).second); os << (r ? 1 : 0) << " sz=" << ps->size() << " rsz=" << ps->rsize(); }
+			else { const Item it(k); const bool r(gs->insert(&it).second); os << (r ? 1 : 0) << " sz=" << gs->size() << " rsz=" << gs->rsize(); }
+		}
+		else if (w.size() == 2 && w[0] == "fnd")
+		{
+			const long k(std::stol(w[1]));
+			bool ans(false);
+			if (use_presence)
+			{
+				ps->find(static_cast<unsigned short>(k), ans);
+				const Presence *cps(ps);
+				const bool ans2(cps->find(static_cast<unsigned short>(k)) != cps->end());
+				if (ans != ans2) { out("find-variants-differ"); continue; }
+			}
+			else
+			{
+				gs->find(Item(k), ans);
+				const GSet *cgs(gs);
+				const bool ans2(cgs->find(Item(k)) != cgs->end());
+				if (ans != ans2) { out("find-variants-differ"); continue; }
+			}
+			os << (ans ? 1 : 0);
+		}
+		else if (w.size() == 1 && w[0] == "clr") { if (use_presence) ps->clear(); else gs->clear(); os << "ok"; }
+		else if (w.size() == 1 && w[0] == "arr")
+		{
+			bool first(true);
+			if (use_presence) for (Presence::const_iterator it(ps->begin()); it != ps->end(); ++it) { os << (first ? "" : " ") << it->_fnum; first = false; }
+			else for (GSet::const_iterator it(gs->begin()); it != gs->end(); ++it) { os << (first ? "" : " ") << it->_k; first = false; }
+			os << '.';
+		}
+		else if (w.size() == 3 && w[0] == "idx")
 		{
 			const unsigned fnum(std::stoul(w[1]));
 			std::string txt; unhex(w[2], txt);
@@ -119,7 +172,10 @@ int main(int argc, char **argv)
 			if (!bme) { out("no-msg"); continue; }
 			Message *m(bme->_create._do(true));
 			const bool has(m->get_fp().has(tag));
-			os << "has=" << (has ? 1 : 0) << " pos=" << (has ? m->get_fp().getPos(tag) : 0);
+			const Presence& pr(m->get_fp().get_presence());
+			Presence::const_iterator it(pr.find(static_cast<unsigned short>(tag)));
+			if ((it != pr.end()) != has) { out("has-differs-from-find"); delete m; continue; }
+			os << "has=" << (has ? 1 : 0) << " pos=" << (has ? int(it->_fnum) : 0);
 			delete m;
 		}
 		else os << "bad-op";
